@@ -68,4 +68,81 @@ func TestVerifC20Cache(t *testing.T) {
 		idx++
 	}
 	w.Sample(map[string]any{"qos": "Burstable", "request_mCPU": 1375, "limit_mCPU": 2750})
+	c20ThroughCache(t, w)
+}
+
+// c20ThroughCache: the same reconstruction observed where users see it - GetResourceRequirements() of a container inserted
+// into a real cache - for a structured family of requests/limits and three histories: a fresh name, a name whose previous
+// instance has exited but is still cached (restart, in-place resize with a restart policy), and a name whose previous
+// instance is still running. What the plugin reconstructs must come from the new container's own cgroup parameters.
+func c20ThroughCache(t *testing.T, w *mc.Worker) {
+	cch, err := NewCache(Options{CacheDir: t.TempDir()})
+	if err != nil {
+		t.Fatalf("%v", err)
+	}
+	cch.InsertPod(&nri.PodSandbox{Id: "p", Name: "pod", Uid: "u", Namespace: "ns", Linux: &nri.LinuxPodSandbox{CgroupParent: "/kubepods/burstable/podu"}}, nil)
+	encode := func(req, lim int64) *nri.LinuxResources {
+		r := &nri.LinuxResources{Cpu: &nri.LinuxCPU{Shares: nri.UInt64(kubernetes.MilliCPUToShares(req))}, Memory: &nri.LinuxMemory{Limit: nri.Int64(1 << 30)}}
+		if lim > 0 {
+			q, p := kubernetes.MilliCPUToQuota(lim)
+			r.Cpu.Quota, r.Cpu.Period = nri.Int64(q), nri.UInt64(uint64(p))
+		}
+		return r
+	}
+	var family []int64
+	for m := int64(2); m <= 4100; m++ {
+		family = append(family, m)
+	}
+	for m := int64(4125); m <= 256000; m += 125 {
+		family = append(family, m, m+1)
+	}
+	n := 0
+	for fi, req := range family {
+		if !w.Mine(fi) {
+			continue
+		}
+		for _, hist := range []string{"fresh", "after-exited-instance", "after-running-instance"} {
+			n++
+			var prevID string
+			if hist != "fresh" {
+				prevID = fmt.Sprintf("prev%d", n)
+				prevReq := req/2 + 100
+				pc, err := cch.InsertContainer(&nri.Container{Id: prevID, PodSandboxId: "p", Name: "c", State: nri.ContainerState_CONTAINER_RUNNING,
+					Linux: &nri.LinuxContainer{Resources: encode(prevReq, 2*prevReq), OomScoreAdj: &nri.OptionalInt{Value: 900}}})
+				if err != nil {
+					t.Fatalf("%v", err)
+				}
+				if hist == "after-exited-instance" {
+					pc.UpdateState(ContainerStateExited)
+				}
+			}
+			id := fmt.Sprintf("cur%d", n)
+			c, err := cch.InsertContainer(&nri.Container{Id: id, PodSandboxId: "p", Name: "c", State: nri.ContainerState_CONTAINER_CREATED,
+				Linux: &nri.LinuxContainer{Resources: encode(req, 2*req), OomScoreAdj: &nri.OptionalInt{Value: 900}}})
+			if err != nil {
+				t.Fatalf("%v", err)
+			}
+			got := c.GetResourceRequirements()
+			gr, gl := got.Requests.Cpu().MilliValue(), got.Limits.Cpu().MilliValue()
+			tol := int64(1)
+			if kubernetes.MilliCPUToShares(req) == kubernetes.MinShares {
+				tol = 2
+			}
+			in := fmt.Sprintf("through-cache:%s:req=%d:lim=%d", hist, req, 2*req)
+			if d := gr - req; d > tol || d < -tol || (req%125 == 0 && d != 0) {
+				w.Report(mc.Violation{Property: "C20", Oracle: "cache-request-reconstruction", Signature: "cache-request-reconstruction:" + hist, Scenario: "cache", Trace: []string{in},
+					Detail: fmt.Sprintf("container inserted with cpu.shares for %dm reports a request of %dm", req, gr)})
+			}
+			if 2*req >= 10 && gl != 2*req {
+				w.Report(mc.Violation{Property: "C20", Oracle: "cache-limit-reconstruction", Signature: "cache-limit-reconstruction:" + hist, Scenario: "cache", Trace: []string{in},
+					Detail: fmt.Sprintf("container inserted with quota/period for %dm reports a limit of %dm", 2*req, gl)})
+			}
+			w.Res.Evaluations++
+			w.Res.Nontrivial++
+			cch.DeleteContainer(id)
+			if prevID != "" {
+				cch.DeleteContainer(prevID)
+			}
+		}
+	}
 }
